@@ -304,12 +304,16 @@ public class TestDataGenerator {
       writer.printf("%s\"test_data\": {\n", indent0);
 
       // Print each zone
+      // Zones not found in java.time have no entry: count only the ones that are printed, so that
+      // the last printed zone is not followed by a comma.
       int zoneCount = 1;
-      int numZones = testData.size();
+      int numZones = 0;
+      for (List<TestItem> items : testData.values()) {
+        if (items != null) numZones++;
+      }
       for (Map.Entry<String, List<TestItem>> entry : testData.entrySet()) {
         List<TestItem> items = entry.getValue();
         if (items == null) {
-          zoneCount++;
           continue;
         }
 
